@@ -231,7 +231,7 @@ func runBatchCase(b batchCase, tag string) *batchRun {
 	run := &batchRun{Case: b, Attempts: map[string][]*batchAttempt{}, Cluster: cl, OwnCtx: -1}
 	var cancelOwnCtx func()
 	var holdMeta int32
-	var ownOnce sync.Once
+	var ownOnce, lookupOnce sync.Once
 	ownOp := ""
 	switch b.Trigger {
 	case "own-ctx-reply-held":
@@ -308,6 +308,10 @@ func runBatchCase(b batchCase, tag string) *batchRun {
 		mu.Unlock()
 		if !relevant && b.Trigger == "own-ctx-retry-round-lookup" && atomic.LoadInt32(&holdMeta) == 1 &&
 			req.Scan != nil && string(req.Scan.GetRegion().GetValue()) == string(sim.MetaRegionName) {
+			// the lookup of the retry round has arrived and stays unanswered: only now
+			// does the call give up (decided by this event, not by a timer: on a loaded
+			// machine a timer may fire before the client has even read the first answer)
+			lookupOnce.Do(func() { go func() { time.Sleep(3 * time.Millisecond); cancelOwnCtx() }() })
 			return &sim.Reply{HoldDefault: hold}
 		}
 		if !relevant {
@@ -420,8 +424,7 @@ func runBatchCase(b batchCase, tag string) *batchRun {
 			}
 			if b.Trigger == "own-ctx-retry-round-lookup" && a.OpID == ownOp && atomic.CompareAndSwapInt32(&holdMeta, 0, 1) {
 				// its region is looked up again in the retry round: that lookup is
-				// not answered, and the call gives up meanwhile
-				go func() { time.Sleep(8 * time.Millisecond); cancelOwnCtx() }()
+				// not answered, and the call gives up once it has arrived (see above)
 			}
 			return &sim.Exc{Class: sim.ExcNSRE}
 		}
